@@ -265,9 +265,16 @@ fn part1() -> Stats {
 // ---------------------------------------------------------------------------------------
 // Part 2: history search
 
-const RTP_LETTERS: [&str; 13] = [
+const RTP_LETTERS: [&str; 14] = [
     "G+1", "G-1", "G+2", "GB+1", "F.seq+20000", "F.seq+40000", "F.hdr-ts", "F.ext", "F.payload", "F.tag", "F.ssrcB-payload", "F.fresh-ssrc", "F.truncated",
+    // a forged SRTCP packet naming SSRC A (a genuine sender report with one payload bit flipped),
+    // handed to unprotect_rtcp of the SAME session in the middle of the RTP history: RTP and SRTCP
+    // receive state of one SSRC live in one context
+    "F.srtcp-on-ssrcA",
 ];
+fn n_letters(kind: &str) -> u64 {
+    if kind == "rtp" { 14 } else { 13 }
+}
 const RTCP_LETTERS: [&str; 13] = [
     "G+1", "G-1", "G+2", "GB+1", "F.index+1", "F.index-far", "F.e-bit", "F.hdr", "F.payload", "F.tag", "F.ssrcB-payload", "F.fresh-ssrc", "F.truncated",
 ];
@@ -284,6 +291,8 @@ struct Stream {
     b: Vec<(Vec<u8>, Vec<u8>)>,
     hdr_len: usize,
     rtcp_tag: usize,
+    /// (rtp streams only) forged SRTCP for SSRC A
+    forged_rtcp_a: Vec<u8>,
 }
 
 fn stream_packet(ssrc: u32, idx: u64) -> RtpPacket {
@@ -316,10 +325,19 @@ fn make_stream(kind: &'static str, profile: SrtpProfile, ks: &KeySet, base_seq_a
             }
         }
     }
-    Stream { kind, profile, base, c0, a, b, hdr_len, rtcp_tag }
+    let mut forged_rtcp_a = vec![];
+    if kind == "rtp" {
+        let plain = build_rtcp("sr1", SSRC_A, 1);
+        let mut prot = sess_protect_rtcp(&mut tx, &plain).unwrap_or_else(|e| vh::machinery_failure(&format!("stream protect_rtcp failed: {e}")));
+        prot[13] ^= 0x20;
+        forged_rtcp_a = prot;
+    }
+    Stream { kind, profile, base, c0, a, b, hdr_len, rtcp_tag, forged_rtcp_a }
 }
 
 struct Event {
+    /// fed to unprotect_rtcp although the history is an RTP history
+    via_rtcp: bool,
     genuine: bool,
     /// 0 = SSRC A context, 1 = SSRC B context, 2 = some other SSRC (no mirror)
     target: u8,
@@ -332,7 +350,7 @@ struct Event {
 fn make_event(s: &Stream, letter: u8, cur: &mut [usize; 2], fresh: &mut u32) -> Event {
     let gen_ev = |t: usize, j: usize| {
         let (p, pl) = if t == 0 { &s.a[j] } else { &s.b[j] };
-        Event { genuine: true, target: t as u8, bytes: p.clone(), plain: Some(pl.clone()) }
+        Event { via_rtcp: false, genuine: true, target: t as u8, bytes: p.clone(), plain: Some(pl.clone()) }
     };
     match letter {
         0 => {
@@ -351,6 +369,7 @@ fn make_event(s: &Stream, letter: u8, cur: &mut [usize; 2], fresh: &mut u32) -> 
             cur[1] += 1;
             gen_ev(1, cur[1])
         }
+        13 if s.kind == "rtp" => Event { via_rtcp: true, genuine: false, target: 2, bytes: s.forged_rtcp_a.clone(), plain: None },
         _ => {
             let next_a = s.a[cur[0] + 1].0.clone();
             let cur_a = s.a[cur[0]].0.clone();
@@ -447,7 +466,7 @@ fn make_event(s: &Stream, letter: u8, cur: &mut [usize; 2], fresh: &mut u32) -> 
                     }
                 }
             }
-            Event { genuine: false, target, bytes: f, plain: None }
+            Event { via_rtcp: false, genuine: false, target, bytes: f, plain: None }
         }
     }
 }
@@ -486,7 +505,7 @@ impl Receiver {
     }
     /// Returns (session result, mirror result if the event addresses a mirrored SSRC).
     fn apply(&mut self, s: &Stream, e: &Event) -> (Rx, Option<Rx>) {
-        let r = if s.kind == "rtp" { sess_unprotect_rtp_bytes(&mut self.sess, &e.bytes) } else { sess_unprotect_rtcp(&mut self.sess, &e.bytes) };
+        let r = if s.kind == "rtp" && !e.via_rtcp { sess_unprotect_rtp_bytes(&mut self.sess, &e.bytes) } else { sess_unprotect_rtcp(&mut self.sess, &e.bytes) };
         let m = match (&mut self.mirror, e.target) {
             (Some(m), t) if t < 2 => Some(ctx_unprotect_rtp_bytes(&mut m[t as usize], &e.bytes)),
             _ => None,
@@ -510,7 +529,7 @@ fn run_genuine(s: &Stream, ks: &KeySet, letters: &[u8]) -> GenuineRun {
 }
 
 fn letters_json(kind: &str, h: &[u8]) -> Value {
-    let names = if kind == "rtp" { &RTP_LETTERS } else { &RTCP_LETTERS };
+    let names = if kind == "rtp" { &RTP_LETTERS[..] } else { &RTCP_LETTERS[..] };
     json!(h.iter().map(|l| names[*l as usize]).collect::<Vec<_>>())
 }
 
@@ -518,7 +537,7 @@ fn letters_json(kind: &str, h: &[u8]) -> Value {
 /// `owned_from`: positions >= this are counted as new states (prefix ownership, see main).
 fn check_hist(s: &Stream, ks: &KeySet, h: &[u8], memo: &HashMap<Vec<u8>, GenuineRun>, owned_from: usize, st: &mut Stats) {
     let pname = profile_name(s.profile);
-    let names = if s.kind == "rtp" { &RTP_LETTERS } else { &RTCP_LETTERS };
+    let names = if s.kind == "rtp" { &RTP_LETTERS[..] } else { &RTCP_LETTERS[..] };
     let replay = || json!({"kind": "history", "proto": s.kind, "profile": pname, "key": ks.name, "base": s.base + s.c0 as u64, "depth_built": s.c0 - 1, "letters": letters_json(s.kind, h)});
     let gl: Vec<u8> = h.iter().copied().filter(|l| *l < N_GENUINE).collect();
     let clean = match memo.get(&gl) {
@@ -537,7 +556,15 @@ fn check_hist(s: &Stream, ks: &KeySet, h: &[u8], memo: &HashMap<Vec<u8>, Genuine
         st.add("events_executed", 1);
         if let Some(m) = &m {
             if m.is_ok() != r.is_ok() {
-                vh::machinery_failure(&format!("mirror context and session disagree on {:?}: {} vs {}", letters_json(s.kind, &h[..=pos]), m.class(), r.class()));
+                // The mirror is a real SrtpContext of that SSRC fed nothing but that SSRC's RTP
+                // datagrams; the session is the real object that also saw every other event of the
+                // history (other SSRCs, SRTCP). A different verdict on the same datagram means
+                // that some other event reached into this SSRC's receive state.
+                st.violation(
+                    format!("hist;{};{pname};session-differs-from-isolated-context;event={};session={};context={}", s.kind, names[l as usize], r.class(), m.class()),
+                    format!("history {}: event #{pos} ({}) gives {} on the session but {} on a context that only saw this SSRC's RTP", letters_json(s.kind, &h[..=pos]), names[l as usize], r.class(), m.class()),
+                    replay(),
+                );
             }
         }
         if e.genuine {
@@ -643,11 +670,11 @@ fn part2(tier: Tier) -> (Stats, Value) {
     for (kind, profile, base, depth) in plan {
         let s = make_stream(kind, profile, &ks, base, depth);
         let memo = genuine_memo(&s, &ks, depth);
-        let leaves = 13u64.pow(depth as u32);
+        let leaves = n_letters(kind).pow(depth as u32);
         let mut st = (0..leaves)
             .into_par_iter()
             .fold(Stats::default, |mut st, k| {
-                let h = nth_seq(k, 13, depth);
+                let h = nth_seq(k, n_letters(kind), depth);
                 // this leaf is the first (in enumeration order) to contain the prefixes whose
                 // remaining digits are all zero: count those as newly reached states
                 let tz = h.iter().rev().take_while(|x| **x == 0).count();
@@ -703,7 +730,7 @@ fn replay(path: &std::path::Path) -> i32 {
             }
             "history" => {
                 let kind = if r["proto"].as_str() == Some("rtcp") { "rtcp" } else { "rtp" };
-                let names = if kind == "rtp" { &RTP_LETTERS } else { &RTCP_LETTERS };
+                let names = if kind == "rtp" { &RTP_LETTERS[..] } else { &RTCP_LETTERS[..] };
                 let h: Vec<u8> = r["letters"].as_array().cloned().unwrap_or_default().iter()
                     .filter_map(|s| names.iter().position(|n| Some(*n) == s.as_str()).map(|p| p as u8)).collect();
                 let depth = (r["depth_built"].as_u64().unwrap_or(h.len() as u64) as usize).max(h.len());
@@ -763,7 +790,7 @@ fn main() {
     rep.set("traces_validated_against_impl", rep.get("histories_run") + rep.get("genuine_only_runs"));
     rep.set("exhaustive", true);
     rep.set("caps_hit", json!([]));
-    rep.set("rule", "Part 1: every single-bit flip and every truncation (all of them distinct datagrams, counted in p1_forged_inputs) of genuine protected packets: profiles{4} x keys{3} x {RTP: empty payload, minimal, CSRC+one-byte ext+padding, two-byte ext 160 B; RTCP: RR, PLI, SR+1 block, SR+SDES+BYE} x receiver {fresh, warm}. Part 2: states = distinct histories (event lists, each reached and checked once as the first leaf that contains it), transitions = their last events; every sequence of exactly D letters over the 13-letter alphabet is executed on a fresh real SrtpSession (+ mirror SrtpContexts for RTP) and compared event by event with the run in which the forged letters are deleted; distinct_canonical_states = distinct (profile, stream, (roc,last_seq) of both mirrored contexts, cursors, number of fresh SSRCs) reached. distinct_nontrivial = forged datagrams of part 1 + distinct canonical states of part 2.");
+    rep.set("rule", "Part 1: every single-bit flip and every truncation (all of them distinct datagrams, counted in p1_forged_inputs) of genuine protected packets: profiles{4} x keys{3} x {RTP: empty payload, minimal, CSRC+one-byte ext+padding, two-byte ext 160 B; RTCP: RR, PLI, SR+1 block, SR+SDES+BYE} x receiver {fresh, warm}. Part 2: states = distinct histories (event lists, each reached and checked once as the first leaf that contains it), transitions = their last events; every sequence of exactly D letters over the 14-letter (RTP; 13-letter RTCP) alphabet is executed on a fresh real SrtpSession (+ mirror SrtpContexts for RTP) and compared event by event with the run in which the forged letters are deleted; distinct_canonical_states = distinct (profile, stream, (roc,last_seq) of both mirrored contexts, cursors, number of fresh SSRCs) reached. distinct_nontrivial = forged datagrams of part 1 + distinct canonical states of part 2.");
     rep.assume("The receiver's SRTCP index high-water mark is not observable through the API (never read back by a receiver context) and is not compared; H4 does not expose it.");
     rep.assume("Eviction of idle per-SSRC contexts (more than 32 contexts and 60 s wall-clock idle) is not reachable in these runs (std::time::Instant is not virtualised).");
     rep.assume("Multi-bit forgeries are the structured ones of the part-2 alphabet (sequence number +20000/+40000, SRTCP index +2^30, SSRC rewrite); arbitrary multi-bit patterns are not enumerated. History search uses one key set ('pattern'); part 1 uses three.");
